@@ -220,6 +220,7 @@ func (c *trapCase) watch() []uint16 {
 }
 
 func (c *trapCase) run(dir string) string {
+	pend("%s", c.request())
 	model := cpu.Model6502
 	if c.model == 1 {
 		model = cpu.Model65C02
@@ -362,6 +363,7 @@ func genPortCase(r *rng.R) *portCase {
 }
 
 func (c *portCase) run(dir string) string {
+	pend("%s", c.request())
 	cfg := emuconfig.DefaultConfig()
 	cfg.Model = "65C02"
 	cfg.MemSpec = "Linear64K"
